@@ -14,5 +14,5 @@ Inductive item :=
 
 (* edges of the lexer automaton dumped by harness/gen_antlr_lexer.py from the serialized ATN of tucanLexer.py *)
 Inductive ledge :=
-| LEps (target : nat)                                  (* epsilon transition                                        *)
-| LChars (ranges : list (N * N)) (target : nat).       (* atom / range / set transition: inclusive code-point ranges *)
+| LEps (target : N)                                    (* epsilon transition                                        *)
+| LChars (ranges : list (N * N)) (target : N).       (* atom / range / set transition: inclusive code-point ranges *)
